@@ -104,10 +104,12 @@ def finish(rng, sc):
     return sc
 
 
-def base_scenario(rng, fmt, res, ref):
+def base_scenario(rng, fmt, res, ref, p_read_as=0.5):
+    """file scenario without options; CSV files are read either by extension (delimiter / header sniffing) or through
+    an explicit `--read-as dsv{…}` (much cheaper: no sniffing)"""
     sc = {"kind": fmt if fmt == "csv" else "mesh", "rtol": None, "atol": None, "flags": {}, "incl": None, "excl": None,
           "read_as": None, "damage": [None, None], "res": res, "ref": ref}
-    if fmt == "csv" and rng.random() < 0.3:
+    if fmt == "csv" and rng.random() < p_read_as:
         sc["read_as"] = [cs.DSV_READER]
     return sc
 
@@ -387,7 +389,7 @@ def gen_chain_group(rng, fmt, opt, gmode, jlevel, placement):
     values) and the other option are the same at all levels, so every field's selected (rel, abs) is non-decreasing
     along the chain.  The deviation of the target field sits on / next to the threshold of level `jlevel`."""
     res, ref = gen_pair(rng, fmt)
-    sc = base_scenario(rng, fmt, res, ref)
+    sc = base_scenario(rng, fmt, res, ref, p_read_as=0.75)
     names = []
     for n, _ in logical_fields(ref):
         if n not in names:
